@@ -51,6 +51,7 @@ class Check:
         self.floors = {}
         self.known = [k for k in load_known() if k["pid"] == pid]
         self.explanation = ""
+        self.deferred = []      # analysis failures of one rule that must not hide violations found by others
 
     # -- recording ---------------------------------------------------------
     def ok(self, rule, where, detail="", nontrivial=True, sample=None):
@@ -81,6 +82,13 @@ class Check:
         """minimum number of instances confirmed by hand for a rule"""
         self.floors[rule] = n
 
+    def guarded(self, thunk):
+        """run one rule; if it cannot analyse its construct, remember that (exit 2 unless a violation is reported anyway)"""
+        try:
+            thunk()
+        except ir.AnalysisBroken as e:
+            self.deferred.append(str(e))
+
     def require(self, cond, msg):
         if not cond:
             raise ir.AnalysisBroken(msg)
@@ -88,6 +96,8 @@ class Check:
     # -- finishing ---------------------------------------------------------
     def finish(self):
         wall = time.time() - self.t0
+        if self.deferred and not self.violations and not self.known_hits:
+            raise ir.AnalysisBroken(self.deferred[0])
         for rule, n in ([] if self.violations or self.known_hits else self.floors.items()):
             got = self.rule_counts.get(rule, 0)
             if got < n:
